@@ -629,6 +629,8 @@ int sim_raise(int sig) {
 void liblcb_verif_yield(const char *site) { sim_yield(site); }
 
 int sim_qwrite_fails(void) { int c = sim_self(); return c >= 0 ? S.fb[c].qwrite_fail : 0; }
+int sim_fiber_qfails(int fiber);
+int sim_fiber_qfails(int fiber) { return (fiber >= 0 && fiber < S.nfb) ? S.fb[fiber].qwrite_fail : 0; }
 int sim_qwrite_fail_errno(void) { int c = sim_self(); return c >= 0 ? S.fb[c].qwrite_fail_errno : 0; }
 
 /* ------------------------------------------------------------ begin/end */
